@@ -175,6 +175,24 @@ def evaluate(case):
         extra = [c for c in comm if c not in want_plain]
         return Result(False, "enabled-kept:comments-differ:%s" % ("hidden-line-left-as-comment" if extra else "comment-lost"),
                       nontrivial, labels, {"got": comm[:8], "expected": want_plain[:8]})
+    # the option is independent of process_directives (which keeps comments and turns '!$omp ...' into Directive nodes)
+    o_enp = gp(case["sent"], std=std, process_directives=True, include_omp_conditional_lines=True)
+    if o_enp.kind != "tree":
+        return Result(False, "enabled-directives:reject:%s" % o_enp.kind, nontrivial, labels, {"error": o_enp.text})
+    left = [str(c).strip() for c in walk(o_enp.tree, F03.Comment) if str(c).strip()]
+    left += [str(c).strip() for c in walk(o_enp.tree, F03.Directive)]
+    if sorted(left) != sorted(want_plain):
+        extra = [c for c in left if c not in want_plain]
+        return Result(False, "enabled-directives:comments-differ:%s" % ("hidden-line-left-as-comment" if extra else "comment-lost"),
+                      nontrivial, labels, {"got": left[:8], "expected": want_plain[:8]})
+    if True:
+        plain_set = set(want_plain)
+        kept = [" ".join(ln.split()) for ln in str(o_enp.tree).split("\n") if ln.strip() and ln.strip() not in plain_set]
+        ref = [" ".join(ln.split()) for ln in str(o_full.tree).split("\n") if ln.strip()]
+        if kept != ref:
+            k = next((i for i, (a, b) in enumerate(zip(kept, ref)) if a != b), min(len(kept), len(ref)))
+            return Result(False, "enabled-directives:text-differs", nontrivial, labels,
+                          {"got": kept[k:k + 2], "expected": ref[k:k + 2]})
     o_dis = gp(case["sent"], std=std)
     if o_dis.kind != "tree":
         return Result(False, "disabled:reject:%s" % o_dis.kind, nontrivial, labels, {"error": o_dis.text})
